@@ -166,7 +166,7 @@ class Mixed:
         off = self.alloc["offsets"][ti]
         nb, es, _ = self.nbytes(ti)
         if off < 0:
-            raise refnet.Unsupported("tensor without arena offset")
+            raise refnet.Unsupported("tensor without arena offset (put %d %s)" % (ti, self.sg["tensors"][ti]["name"]))
         k = off
         for v in np.asarray(arr, dtype=np.int64).reshape(-1):
             u = int(v) % (1 << (8 * es))
@@ -178,7 +178,7 @@ class Mixed:
         off = self.alloc["offsets"][ti]
         nb, es, signed = self.nbytes(ti)
         if off < 0:
-            raise refnet.Unsupported("tensor without arena offset")
+            raise refnet.Unsupported("tensor without arena offset (get %d %s)" % (ti, self.sg["tensors"][ti]["name"]))
         vals = []
         for k in range(off, off + nb, es):
             u = sum(arena[k + b] << (8 * b) for b in range(es))
@@ -188,7 +188,9 @@ class Mixed:
     def __call__(self):
         try:
             return self.execute()
-        except refnet.Unsupported:
+        except refnet.Unsupported as ex:
+            if os.environ.get("VERIF_C01_DEBUG"):
+                print("MIXED-UNSUPPORTED", self.r.get("net_desc"), ex, flush=True)
             return [0]
 
     def execute(self):
@@ -201,6 +203,8 @@ class Mixed:
                 size = max(size, off + self.nbytes(ti)[0])
         arena = [0] * size
         for ti, arr in self.inputs.items():
+            if self.alloc["offsets"][ti] < 0 and not any(ti in op["inputs"] for op in self.sg["operators"]):
+                continue                      # a network input that nothing reads has no place in the arena
             self.put(arena, ti, arr)
         npu = iter([n for n in self.art["npu"] if n["sg"] == 0])
         for op in self.sg["operators"]:
@@ -309,6 +313,8 @@ def run(tier):
     for (r, expect, tol, signed), o in zip(meta, outs):
         if o[0] != 1:
             skipped["interpreter: operation outside the modelled subset"] += 1
+            if os.environ.get("VERIF_C01_DEBUG"):
+                print("OUTSIDE", r.get("net_name"), r.get("net_desc"), r["job"]["args"][:2], o[:4], flush=True)
             continue
         programs += 1
         kinds[tuple(r.get("net_desc") or [])] += 1
